@@ -17,7 +17,8 @@ RULE = ('generated whitelists (length 3-6 over ACGTN, 1-30 entries incl. distanc
         "lazy '*', addBarcode+expand) queried with ALL 5^L strings for k in 0..2, plus every shipped barcode/index file "
         'queried with all members, 1-neighbours, 2-neighbours, random and wrong-length strings. A query is non-trivial '
         'when the oracle finds at least one whitelisted barcode within distance 2 (so assignment, tie or out-of-radius '
-        'must be told apart); distinct = distinct (whitelist-hash, k, query).')
+        'must be told apart); distinct = distinct (whitelist-hash, k, query).'
+        ' Plus cell index 0, a transient failure of the first lazy load (file away / truncated gz / EMFILE) followed by a retry, and demux.py -si a,b,.. -hdi k runs decided on the aA / aI tags.')
 ASSUMPTIONS = ['no byte-identical barcode twice in a generated file; for shipped files with duplicates either index is accepted',
                'generated cell indices contain a character outside ACGTNX (column-order sniffing is documented to be ambiguous otherwise) or are plain integers',
                'Hamming distance is defined between strings of equal length only']
